@@ -103,15 +103,45 @@ func c17prop(ev *evid.Rec) func(rt *rapid.T) {
 			attempt := func(ip, account, flow string) {
 				port++
 				wantBanned := banned(ip)
+				if wantBanned {
+					// what a banned peer sends after its handshake does not matter - a valid login, a wrong password, an unknown
+					// login or nothing at all: it is told about the ban and the connection is closed
+					switch rapid.SampledFrom([]string{"valid", "nothing", "wrong-password", "unknown-login", "valid"}).Draw(rt, "bannedPeerSends") {
+					case "nothing":
+						rec("  (the banned peer sends its handshake only)")
+						c := w.Connect(fmt.Sprintf("%s:%d", ip, port))
+						c.SendParts([][]byte{hlref.Handshake(1, 2)})
+						settle(2 * time.Second)
+						if hs, ok := c.Take(8); !ok || string(hs) != "TRTP\x00\x00\x00\x00" {
+							fail("connection from %s: no handshake reply", ip)
+						}
+						got := c.TakeInbox()
+						if len(got) != 1 || got[0].Type != hlref.TranServerMsg || got[0].IsReply != 0 || !c.EOF() {
+							fail("a connection from the banned address %s that sent its handshake and nothing else received %s (closed: %v) instead of the ban notice and the end of the connection (ban %+v)", ip, tranSummary(got), c.EOF(), bans[ip])
+						}
+						nt = true
+						return
+					case "wrong-password":
+						rec("  (the banned peer sends a wrong password)")
+						account = account + "\x00wrongpw"
+					case "unknown-login":
+						rec("  (the banned peer sends an unknown login)")
+						account = "nobody-" + account
+					}
+				}
 				before := userIDs()
 				admin.TakeInbox()
 				for _, u := range users {
 					u.conn.TakeInbox()
 				}
 				c := w.Connect(fmt.Sprintf("%s:%d", ip, port))
-				lo := hlsim.LoginOpts{Login: account, Password: "pw", Name: []byte("visitor"), Icon: 1}
+				pwd := "pw"
+				if i := strings.Index(account, "\x00wrongpw"); i >= 0 {
+					account, pwd = account[:i], "not the password"
+				}
+				lo := hlsim.LoginOpts{Login: account, Password: pwd, Name: []byte("visitor"), Icon: 1}
 				if flow != "123" {
-					lo = hlsim.LoginOpts{Login: account, Password: "pw", Version: hlref.BE16(190)}
+					lo = hlsim.LoginOpts{Login: account, Password: pwd, Version: hlref.BE16(190)}
 				}
 				// handshake and login pipelined in one write: a banned peer's login must not be processed
 				c.SendParts([][]byte{hlref.Handshake(1, 2), hlref.Tran{Type: hlref.TranLogin, ID: 77, Fields: lo.Fields()}.Encode()})
